@@ -16,10 +16,12 @@ import (
 // intervening store to that path are the same value; the rules only compare paths.
 
 type flow struct {
-	p        *Prog
-	depth    int
-	visiting map[*ssa.Phi]bool
-	cyclic   map[*ssa.Phi]bool
+	p            *Prog
+	depth        int
+	steps        int // nodes rendered so far in this top-level call: rendering is cut off ("…") beyond a budget
+	visiting     map[*ssa.Phi]bool
+	cyclic       map[*ssa.Phi]bool
+	visitingCell map[*ssa.Alloc]bool
 }
 
 func (p *Prog) path(v ssa.Value) string {
@@ -40,7 +42,8 @@ func (fl *flow) path(v ssa.Value, d int) string {
 	if v == nil {
 		return "?"
 	}
-	if d > 40 {
+	fl.steps++
+	if d > 40 || fl.steps > 6000 {
 		return "…"
 	}
 	switch x := v.(type) {
@@ -250,6 +253,15 @@ func (fl *flow) sel(base ssa.Value, fv *types.Var, d int) string {
 // cell describes the content of a local variable cell: the unique value stored into it, or a
 // struct literal under construction, else an opaque name.
 func (fl *flow) cell(a *ssa.Alloc, d int) string {
+	// a variable whose stored values depend on its own content (x = f(x) in a loop) is a loop variable: opaque
+	if fl.visitingCell == nil {
+		fl.visitingCell = map[*ssa.Alloc]bool{}
+	}
+	if fl.visitingCell[a] {
+		return "loopvar:" + a.Name()
+	}
+	fl.visitingCell[a] = true
+	defer delete(fl.visitingCell, a)
 	var stores []*ssa.Store
 	fieldStores := 0
 	for _, ref := range *a.Referrers() {
